@@ -151,6 +151,17 @@ def _lambda_as_def(lam: ast.Lambda):
     return fn
 
 
+class PairTable:
+    """A module-level sequence of (mode, rule) pairs."""
+
+    def __init__(self, rows):
+        self.rows = rows
+
+
+class LoopBreak(Exception):
+    pass
+
+
 class Unk:
     """An integer the cell says nothing about."""
 
@@ -252,6 +263,24 @@ class TableEval:
                 self.block(st.orelse)
             self.block(st.finalbody)
             return
+        if isinstance(st, ast.For):
+            seq = self.ev(st.iter)
+            rows = seq.rows if isinstance(seq, PairTable) else (list(seq) if isinstance(seq, tuple) else None)
+            if rows is None:
+                self.bad(st, "loop over something else than a table of the module")
+            broke = False
+            for row in rows:
+                self.assign(st.target, tuple(row) if isinstance(row, (tuple, list)) else row)
+                try:
+                    self.block(st.body)
+                except LoopBreak:
+                    broke = True
+                    break
+            if not broke:
+                self.block(st.orelse)
+            return
+        if isinstance(st, ast.Break):
+            raise LoopBreak()
         if isinstance(st, ast.Pass):
             return
         if isinstance(st, ast.Assert):
@@ -313,6 +342,8 @@ class TableEval:
                 return self.env[n.id]
             if n.id in ("True", "False"):
                 return n.id == "True"
+            if n.id == "ROUNDING":
+                return "ROUNDING-class"
             tbl = self.module_table(n.id)
             if tbl is not None:
                 return tbl
@@ -334,6 +365,13 @@ class TableEval:
             s = src_of(n)
             if s.startswith("ROUNDING."):
                 return Mode(n.attr)
+            if n.attr == "__class__":
+                v = self.ev(n.value)
+                if isinstance(v, Mode):
+                    # a value that is no member of the enumeration is an object of some other class
+                    return "ROUNDING-class" if v.name in self.member_names() else "foreign-class"
+                if v is None:
+                    return "NoneType-class"
             self.bad(n, "attribute")
         if isinstance(n, ast.Call) and isinstance(n.func, ast.Attribute) and n.func.attr == "get":
             base = self.ev(n.func.value)
@@ -364,6 +402,15 @@ class TableEval:
                 self.bad(n, "abs operand")
             if f == "get_dflt_rounding_mode" and not n.args:
                 return Mode(self.default_mode)
+            if f == "type" and len(n.args) == 1:
+                v = self.ev(n.args[0])
+                if isinstance(v, Mode):
+                    return "ROUNDING-class" if v.name in self.member_names() else "foreign-class"
+                if v is None:
+                    return "NoneType-class"
+            if f == "isinstance" and len(n.args) == 2 and src_of(n.args[1]) == "ROUNDING":
+                v = self.ev(n.args[0])
+                return isinstance(v, Mode) and v.name in self.member_names()
             callee = self.resolve_func(n.func)
             if callee is not None and self.depth < 3:
                 return self.inline(callee, [self.ev(a) for a in n.args],
@@ -433,9 +480,41 @@ class TableEval:
             return v.fi if isinstance(v, FuncRef) else None
         return None
 
+    _members = None
+
+    def member_names(self):
+        if TableEval._members is None:
+            TableEval._members = set(rounding_modes_from_dependency())
+        return TableEval._members
+
+    def _func_value(self, v, label):
+        if isinstance(v, ast.Name):
+            f = self.resolve_func(v)
+            return FuncRef(f) if f is not None else None
+        if isinstance(v, ast.Lambda):
+            from .loader import FuncInfo
+            return FuncRef(FuncInfo(f"<lambda {label}>", self.fi.module, None, _lambda_as_def(v), "function"))
+        return None
+
     def module_table(self, name):
-        """NAME = {ROUNDING.X: func | lambda, ...} at module level -> {mode name: FuncRef}"""
+        """NAME = {ROUNDING.X: func | lambda, ...} at module level -> {mode name: FuncRef};
+        NAME = ((ROUNDING.X, func | lambda), ...) -> [(Mode, FuncRef), ...]; NAME = dict(OTHER) -> as a dict."""
         e = self.fi.module.globals.get(name)
+        if isinstance(e, ast.Call) and isinstance(e.func, ast.Name) and e.func.id == "dict" and len(e.args) == 1 \
+                and isinstance(e.args[0], ast.Name) and not e.keywords:
+            pairs = self.module_table(e.args[0].id)
+            if isinstance(pairs, PairTable):
+                return {m.name: f for m, f in pairs.rows}
+            return pairs if isinstance(pairs, dict) else None
+        if isinstance(e, (ast.Tuple, ast.List)) and e.elts and all(isinstance(x, ast.Tuple) and len(x.elts) == 2 for x in e.elts):
+            rows = []
+            for x in e.elts:
+                ks = src_of(x.elts[0])
+                fv = self._func_value(x.elts[1], ks)
+                if not ks.startswith("ROUNDING.") or fv is None:
+                    return None
+                rows.append((Mode(ks.split(".")[1]), fv))
+            return PairTable(rows)
         if not isinstance(e, ast.Dict):
             return None
         out = {}
@@ -585,6 +664,11 @@ class TableEval:
         if opn in ("In", "NotIn") and isinstance(r, tuple):
             hit = any(self.cmp(ast.Eq(), l, x, node) for x in r)
             return hit if opn == "In" else not hit
+        if isinstance(l, str) and l.endswith("-class") and isinstance(r, str) and r.endswith("-class"):
+            if opn in ("Eq", "Is"):
+                return l == r
+            if opn in ("NotEq", "IsNot"):
+                return l != r
         if isinstance(l, FuncRef) or isinstance(r, FuncRef):
             same = (l is r) or (isinstance(l, FuncRef) and isinstance(r, FuncRef) and l.fi is r.fi)
             if opn in ("Eq", "Is"):
